@@ -112,24 +112,21 @@ def unescrowCoin (ch : Chain) (escrow receiver : Addr) (d : Str) (n : Nat) : M C
     if ch.totalEscrow d < n then .error .panic
     else .ok (setTotalEscrow { ch with bank := b } d (ch.totalEscrow d - n))
 
-/-- `sdk.NewCoin` panics on an invalid denomination -/
-def newCoin (d : Str) : M Str := if sdkValidDenom d then .ok d else .error .panic
-
 /-- `Keeper.SendTransfer` -/
 def sendTransfer (cfg : Config) (c : Nat) (ch : Chain) (port chan : Str) (tok : Denom) (amt : Nat)
-    (sender : Addr) : M Chain := do
-  if !ch.sendEnabled then throw (.err "transfer/7")
-  if isBlockedAddr cfg c sender then throw (.err "ibc/2")
-  let coin ← newCoin (ics20SendCoinDenom cfg.hashHex tok)
-  if tok.hasPrefix port chan then
-    match ch.bank.send sender cfg.moduleAddr coin amt with
-    | none => throw (.err "sdk/5")
+    (sender : Addr) : M Chain :=
+  if !ch.sendEnabled then .error (.err "transfer/7")
+  else if isBlockedAddr cfg c sender then .error (.err "ibc/2")
+  else if !sdkValidDenom (ics20SendCoinDenom cfg.hashHex tok) then .error .panic   -- `token.ToCoin()` → `sdk.NewCoin`
+  else if tok.hasPrefix port chan then
+    match ch.bank.send sender cfg.moduleAddr (ics20SendCoinDenom cfg.hashHex tok) amt with
+    | none => .error (.err "sdk/5")
     | some b =>
-      match b.burn cfg.moduleAddr coin amt with
-      | none => throw .panic
-      | some b' => pure { ch with bank := b' }
+      match b.burn cfg.moduleAddr (ics20SendCoinDenom cfg.hashHex tok) amt with
+      | none => .error .panic
+      | some b' => .ok { ch with bank := b' }
   else
-    escrowCoin ch sender (cfg.escrowAddr port chan) coin amt
+    escrowCoin ch sender (cfg.escrowAddr port chan) (ics20SendCoinDenom cfg.hashHex tok) amt
 
 /-- `FungibleTokenPacketData.ValidateBasic` (also what `InternalTransferRepresentation.ValidateBasic`
     re-checks); the memo-length limit is not modelled (memos are short) -/
@@ -142,41 +139,45 @@ def validatePacketData (d : PacketData) : Option String :=
     | some .blankBase => some "transfer/3"
     | some .badHop => some "host/2"
 
+/-- the mint branch of `OnRecvPacket`: record the denomination, mint to the module account, send to
+    the receiver -/
+def mintVoucher (cfg : Config) (ch : Chain) (d' : Denom) (coin : Str) (receiver : Addr) (amt : Nat) : M Chain :=
+  let ch1 := if hasDenom cfg ch (cfg.hashHex d'.path) then ch else setDenom cfg ch d'
+  match (ch1.bank.mint cfg.moduleAddr coin amt).send cfg.moduleAddr receiver coin amt with
+  | none => .error (.err "sdk/5")
+  | some b' => .ok { ch1 with bank := b' }
+
 /-- `Keeper.OnRecvPacket` -/
-def onRecvPacket (cfg : Config) (c : Nat) (ch : Chain) (data : PacketData) (sp sc dp dc : Str) : M Chain := do
-  if let some e := validatePacketData data then throw (.err e)
-  if !ch.recvEnabled then throw (.err "transfer/8")
-  let receiver ← match cfg.decode data.receiver with
-    | some a => pure a
-    | none => throw (.err "ibc/5")
-  if isBlockedAddr cfg c receiver then throw (.err "ibc/2")
-  let d := extract data.denom
-  let coin ← newCoin (ics20RecvCoinDenom cfg.hashHex sp sc dp dc data.denom)
-  if d.hasPrefix sp sc then
-    unescrowCoin ch (cfg.escrowAddr dp dc) receiver coin data.amount
-  else
-    let d' : Denom := ⟨⟨dp, dc⟩ :: d.trace, d.base⟩
-    let ch1 := if hasDenom cfg ch (cfg.hashHex d'.path) then ch else setDenom cfg ch d'
-    let b := ch1.bank.mint cfg.moduleAddr coin data.amount
-    match b.send cfg.moduleAddr receiver coin data.amount with
-    | none => throw (.err "sdk/5")
-    | some b' => pure { ch1 with bank := b' }
+def onRecvPacket (cfg : Config) (c : Nat) (ch : Chain) (data : PacketData) (sp sc dp dc : Str) : M Chain :=
+  match validatePacketData data with
+  | some e => .error (.err e)
+  | none =>
+    if !ch.recvEnabled then .error (.err "transfer/8")
+    else match cfg.decode data.receiver with
+      | none => .error (.err "ibc/5")
+      | some receiver =>
+        if isBlockedAddr cfg c receiver then .error (.err "ibc/2")
+        else if !sdkValidDenom (ics20RecvCoinDenom cfg.hashHex sp sc dp dc data.denom) then .error .panic  -- `sdk.NewCoin`
+        else if (extract data.denom).hasPrefix sp sc then
+          unescrowCoin ch (cfg.escrowAddr dp dc) receiver (ics20RecvCoinDenom cfg.hashHex sp sc dp dc data.denom) data.amount
+        else
+          mintVoucher cfg ch ⟨⟨dp, dc⟩ :: (extract data.denom).trace, (extract data.denom).base⟩
+            (ics20RecvCoinDenom cfg.hashHex sp sc dp dc data.denom) receiver data.amount
 
 /-- `Keeper.refundPacketTokens` -/
-def refundPacketTokens (cfg : Config) (c : Nat) (ch : Chain) (sp sc : Str) (data : PacketData) : M Chain := do
-  let sender ← match cfg.decode data.sender with
-    | some a => pure a
-    | none => throw (.err "undefined/1")
-  if isBlockedAddr cfg c sender then throw (.err "ibc/2")
-  let tok := extract data.denom
-  let coin ← newCoin (tok.ibcDenom cfg.hashHex)
-  if tok.hasPrefix sp sc then
-    let b := ch.bank.mint cfg.moduleAddr coin data.amount
-    match b.send cfg.moduleAddr sender coin data.amount with
-    | none => throw .panic
-    | some b' => pure { ch with bank := b' }
-  else
-    unescrowCoin ch (cfg.escrowAddr sp sc) sender coin data.amount
+def refundPacketTokens (cfg : Config) (c : Nat) (ch : Chain) (sp sc : Str) (data : PacketData) : M Chain :=
+  match cfg.decode data.sender with
+  | none => .error (.err "undefined/1")
+  | some sender =>
+    if isBlockedAddr cfg c sender then .error (.err "ibc/2")
+    else if !sdkValidDenom ((extract data.denom).ibcDenom cfg.hashHex) then .error .panic   -- `token.ToCoin()`
+    else if (extract data.denom).hasPrefix sp sc then
+      match (ch.bank.mint cfg.moduleAddr ((extract data.denom).ibcDenom cfg.hashHex) data.amount).send
+          cfg.moduleAddr sender ((extract data.denom).ibcDenom cfg.hashHex) data.amount with
+      | none => .error .panic
+      | some b' => .ok { ch with bank := b' }
+    else
+      unescrowCoin ch (cfg.escrowAddr sp sc) sender ((extract data.denom).ibcDenom cfg.hashHex) data.amount
 
 /-! ### messages -/
 
@@ -217,44 +218,60 @@ def knownEncoding (e : Str) : Bool :=
   e = [] || e = "application/json".toList || e = "application/x-protobuf".toList ||
   e = "application/x-solidity-abi".toList
 
+/-- the amount actually sent: `UnboundedSpendLimit()` stands for the whole spendable balance -/
+def expandAmount (ch : Chain) (sender : Addr) (m : MsgTransfer) : Option Nat :=
+  if m.amount = unbounded then
+    (if ch.bank.bal sender m.denom = 0 then none else some (ch.bank.bal sender m.denom))
+  else some m.amount
+
 /-- `Keeper.Transfer` (msg server).  `coreErr` is the verdict of core IBC's `SendPacket` (`none` = the
     packet is committed with sequence `seq`) — an adversarial parameter here.  Returns the new chain
     state and the packet handed to core IBC. -/
 def transfer (cfg : Config) (c : Nat) (ch : Chain) (m : MsgTransfer) (coreErr : Option String) (seq : Nat) :
-    M (Chain × Packet) := do
-  if !ch.sendEnabled then throw (.err "transfer/7")
-  let sender ← match cfg.decode m.sender with
-    | some a => pure a
-    | none => throw (.err "undefined/1")
-  let amount ←
-    if m.amount = unbounded then
-      (if ch.bank.bal sender m.denom = 0 then throw (.err "transfer/5") else pure (ch.bank.bal sender m.denom))
-    else pure m.amount
-  let token ← tokenFromCoin cfg ch m.denom
-  let data : PacketData := ⟨token.path, amount, m.sender, m.receiver, m.memo⟩
-  if let some e := validatePacketData data then throw (.err e)
-  let isV2 := !cfg.hasChannel c m.port m.chan || m.alias
-  if !isV2 then
+    M (Chain × Packet) :=
+  if !ch.sendEnabled then .error (.err "transfer/7")
+  else match cfg.decode m.sender with
+  | none => .error (.err "undefined/1")
+  | some sender =>
+  match expandAmount ch sender m with
+  | none => .error (.err "transfer/5")
+  | some amount =>
+  match tokenFromCoin cfg ch m.denom with
+  | .error f => .error f
+  | .ok token =>
+  match validatePacketData ⟨token.path, amount, m.sender, m.receiver, m.memo⟩ with
+  | some e => .error (.err e)
+  | none =>
+  if cfg.hasChannel c m.port m.chan && !m.alias then
     -- transferV1Packet: SendTransfer on the fixed port "transfer", then core SendPacket
-    let ch' ← sendTransfer cfg c ch transferPort m.chan token amount sender
-    if let some e := coreErr then throw (.err e)
-    match cfg.peer c m.chan with
-    | none => throw (.err "channel/3")
-    | some (dc, did) =>
-      pure (ch', ⟨c, transferPort, m.chan, dc, transferPort, did, seq, false, data⟩)
+    match sendTransfer cfg c ch transferPort m.chan token amount sender with
+    | .error f => .error f
+    | .ok ch' =>
+      match coreErr with
+      | some e => .error (.err e)
+      | none =>
+        match cfg.peer c m.chan with
+        | none => .error (.err "channel/3")
+        | some (dc, did) =>
+          .ok (ch', ⟨c, transferPort, m.chan, dc, transferPort, did, seq, false,
+                    ⟨token.path, amount, m.sender, m.receiver, m.memo⟩⟩)
   else
-    -- transferV2Packet: MarshalPacketData, MsgSendPacket (core first), then OnSendPacket
-    if !knownEncoding m.encoding then throw (.err "ibc/12")
-    match cfg.peer c m.chan with
-    | none => throw (.err "clientv2/35")
+    -- transferV2Packet: MarshalPacketData, MsgSendPacket (core first), then OnSendPacket, which
+    -- re-parses the packet data
+    if !knownEncoding m.encoding then .error (.err "ibc/12")
+    else match cfg.peer c m.chan with
+    | none => .error (.err "clientv2/35")
     | some (dc, did) =>
-      if let some e := coreErr then throw (.err e)
-      -- v2 OnSendPacket
-      if !(isValidClientID m.chan && isValidClientID did) then throw (.err "channelv2/2")
-      let tok := extract data.denom
-      if tok.base.contains '/' then throw (.err "transfer/3")
-      let ch' ← sendTransfer cfg c ch transferPort m.chan tok amount sender
-      pure (ch', ⟨c, transferPort, m.chan, dc, transferPort, did, seq, true, data⟩)
+      match coreErr with
+      | some e => .error (.err e)
+      | none =>
+        if !(isValidClientID m.chan && isValidClientID did) then .error (.err "channelv2/2")
+        else if (extract token.path).base.contains '/' then .error (.err "transfer/3")
+        else match sendTransfer cfg c ch transferPort m.chan (extract token.path) amount sender with
+          | .error f => .error f
+          | .ok ch' =>
+            .ok (ch', ⟨c, transferPort, m.chan, dc, transferPort, did, seq, true,
+                      ⟨token.path, amount, m.sender, m.receiver, m.memo⟩⟩)
 
 /-- the acknowledgement bytes handed to `OnAcknowledgementPacket`, by shape -/
 inductive Ack
